@@ -1,5 +1,136 @@
+import OpusModel.Kernels
 import Driver.Util
-/- Suite stub — replaced by the owner of this suite. -/
+/-
+  Suite `kernels` (C15): the Lean models of OpusModel/Kernels.lean evaluated over ℤ (exact domain) and
+  printed as IEEE-754 bit patterns, the integer VQ kernel, the arch decision list and the dispatch-table spec.
+
+    inner <xs> <ys>                         celt_inner_prod_sse            -> f<8 hex>
+    dual <xs> <y1s> <y2s>                   dual_inner_prod_sse            -> f.. f..
+    xcorr4 <len> <xs> <ys> <sum0..3>        xcorr_kernel_sse               -> f..,f..,f..,f..
+    pitchxcorr <len> <maxpitch> <xs> <ys>   celt_pitch_xcorr_avx2          -> f..,…   (maxpitch values)
+    comb <T> <N> <g10> <g11> <g12> <xs>     comb_filter_const_sse, y ≠ x   -> f..,…   (4*(N/4) values)
+    combip <T> <N> <g10> <g11> <g12> <xs>   the same in place (y = x)      -> f..,…
+    flp c|avx2 <xs> <ys>                    silk_inner_product_FLP_*       -> d<16 hex>
+    vqwmat c|sse <XX> <xX> <cb> <cbgain> <cl> <subfr> <maxgain> <L>        -> ind=.. res=.. rate=.. gain=..
+    selectarch <nIds> <ecx1> <edx1> <ebx7> <cap|->                         -> arch
+    dispatch <TABLE> <mask> <a>                                            -> symbol the table must hold at index a
+-/
 namespace Driver.SuiteKernels
-def handle (_ : List String) : String := "bad-op"
+open Opus Opus.Kernels Driver
+
+def hex (n digits : Nat) : String :=
+  String.ofList ((List.range digits).reverse.map (fun i => hexDigit (n / 16 ^ i % 16)))
+
+/-- binary32 bit pattern of an integer that is exactly representable (|n| < 2^24). -/
+def f32Bits (n : Int) : String :=
+  let a := n.natAbs
+  if a ≥ 16777216 then "INEXACT"
+  else if a = 0 then "f00000000"
+  else
+    let e := a.log2
+    let mant := (a * 2 ^ (23 - e)) % 8388608
+    "f" ++ hex ((if n < 0 then 2147483648 else 0) + (e + 127) * 8388608 + mant) 8
+
+/-- binary64 bit pattern of an integer with |n| < 2^53. -/
+def f64Bits (n : Int) : String :=
+  let a := n.natAbs
+  if a ≥ 9007199254740992 then "INEXACT"
+  else if a = 0 then "d0000000000000000"
+  else
+    let e := a.log2
+    let mant := (a * 2 ^ (52 - e)) % 4503599627370496
+    "d" ++ hex ((if n < 0 then 9223372036854775808 else 0) + (e + 1023) * 4503599627370496 + mant) 16
+
+def mem (l : List Int) : Nat → Int :=
+  let a := l.toArray
+  fun i => a.getD i 0
+
+def f32List (l : List Int) : String := ",".intercalate (l.map f32Bits)
+
+/-- comb_filter_const in place: the sequential C semantics on one buffer (celt.c:163-186 with y = x);
+    `buf` index 0 is `x[-T-2]`. -/
+def combInPlace (buf : Array Int) (T N : Nat) (g10 g11 g12 : Int) : Array Int :=
+  (List.range N).foldl (fun b i =>
+    let x := fun (j : Nat) => b.getD j 0
+    b.setIfInBounds (i + T + 2) (combC x T g10 g11 g12 i)) buf
+
+def handle : List String → String
+  | ["inner", xs, ys] =>
+    match parseIntList xs, parseIntList ys with
+    | some x, some y =>
+      if x.length != y.length then "bad-op" else f32Bits (innerProdSse (mem x) (mem y) x.length)
+    | _, _ => "bad-op"
+  | ["dual", xs, y1s, y2s] =>
+    match parseIntList xs, parseIntList y1s, parseIntList y2s with
+    | some x, some y1, some y2 =>
+      if x.length != y1.length || x.length != y2.length then "bad-op"
+      else
+        let r := dualInnerProdSse (mem x) (mem y1) (mem y2) x.length
+        s!"{f32Bits r.1} {f32Bits r.2}"
+    | _, _, _ => "bad-op"
+  | ["xcorr4", len, xs, ys, sums] =>
+    match parseNat len, parseIntList xs, parseIntList ys, parseIntList sums with
+    | some len, some x, some y, some s =>
+      if x.length != len || y.length != len + 3 || s.length != 4 then "bad-op"
+      else
+        let r := xcorrKernelSse (mem x) (mem y) (mem s) len
+        f32List [r 0, r 1, r 2, r 3]
+    | _, _, _, _ => "bad-op"
+  | ["pitchxcorr", len, mp, xs, ys] =>
+    match parseNat len, parseNat mp, parseIntList xs, parseIntList ys with
+    | some len, some mp, some x, some y =>
+      if x.length != len || y.length != len + mp || mp = 0 then "bad-op"
+      else f32List ((List.range mp).map (pitchXcorrAvx2 (mem x) (mem y) len mp))
+    | _, _, _, _ => "bad-op"
+  | ["comb", t, n, g10, g11, g12, xs] =>
+    match parseNat t, parseNat n, parseInt g10, parseInt g11, parseInt g12, parseIntList xs with
+    | some t, some n, some g10, some g11, some g12, some x =>
+      if x.length != t + 2 + n then "bad-op"
+      else f32List ((List.range (n / 4 * 4)).map (combSse (mem x) t g10 g11 g12))
+    | _, _, _, _, _, _ => "bad-op"
+  | ["combip", t, n, g10, g11, g12, xs] =>
+    match parseNat t, parseNat n, parseInt g10, parseInt g11, parseInt g12, parseIntList xs with
+    | some t, some n, some g10, some g11, some g12, some x =>
+      if x.length != t + 2 + n then "bad-op"
+      else
+        let r := combInPlace x.toArray t (n / 4 * 4) g10 g11 g12
+        f32List ((List.range (n / 4 * 4)).map (fun i => r.getD (i + t + 2) 0))
+    | _, _, _, _, _, _ => "bad-op"
+  | ["flp", v, xs, ys] =>
+    match parseIntList xs, parseIntList ys with
+    | some x, some y =>
+      if x.length != y.length then "bad-op"
+      else if v = "c" then f64Bits (innerProductFlpC (mem x) (mem y) x.length)
+      else if v = "avx2" then f64Bits (innerProductFlpAvx2 (mem x) (mem y) x.length)
+      else "bad-op"
+    | _, _ => "bad-op"
+  | ["vqwmat", v, xx, xX, cb, cbg, cl, subfr, maxg, l] =>
+    match parseIntList xx, parseIntList xX, parseIntList cb, parseIntList cbg, parseIntList cl,
+          parseInt subfr, parseInt maxg, parseNat l with
+    | some xx, some xX, some cb, some cbg, some cl, some subfr, some maxg, some l =>
+      if xx.length != 25 || xX.length != 5 || cb.length != 5 * l || cbg.length != l || cl.length != l then "bad-op"
+      else
+        let inp : VQIn := ⟨xx, xX, cb, cbg, cl, subfr, maxg, l⟩
+        let r := if v = "c" then some (vqWMatEC_c inp) else if v = "sse" then some (vqWMatEC_sse inp) else none
+        match r with
+        | none => "bad-op"
+        | some r =>
+          let g := match r.gain with | some g => toString g | none => "-"
+          s!"ind={r.ind} res={r.resNrg} rate={r.rateDist} gain={g}"
+    | _, _, _, _, _, _, _, _ => "bad-op"
+  | ["selectarch", nIds, ecx1, edx1, ebx7, cap] =>
+    match parseNat nIds, parseNat ecx1, parseNat edx1, parseNat ebx7 with
+    | some nIds, some ecx1, some edx1, some ebx7 =>
+      let f := cpuFeatureCheck nIds ecx1 edx1 ebx7
+      if cap = "-" then toString (selectArch f none)
+      else match parseNat cap with
+        | some c => if c ≤ 9 then toString (selectArch f (some c)) else "bad-op"
+        | none => "bad-op"
+    | _, _, _, _ => "bad-op"
+  | ["dispatch", table, mask, a] =>
+    match specOf table, parseNat mask, parseNat a with
+    | some k, some mask, some a => if a ≤ mask then (expectedTable k mask).getD a "bad-op" else "bad-op"
+    | _, _, _ => "bad-op"
+  | _ => "bad-op"
+
 end Driver.SuiteKernels
